@@ -159,11 +159,11 @@ def systematic(tier):
         for ci, cuts in enumerate(cutsA):
             if tier == "quick" and t["fam"] == "local" and ci % 8:
                 continue
-            if tier == "quick" and ci % 2 and (zlib.crc32(f"{ti}".encode()) + ci) % 5:
+            if tier == "quick" and ci % 2 and (zlib.crc32(f"{ti}".encode()) + ci) % 9:
                 continue
             cb = cutsB[(ci * 5 + ti) % len(cutsB)]
             cases.append({"t": ti, "cuts": cuts, "known": False, "cuts_b": cb})
-            if ci % (2 if tier == "thorough" else 4) == 0:
+            if ci % (2 if tier == "thorough" else 8) == 0:
                 cases.append({"t": ti, "cuts": cuts, "known": True, "cuts_b": cb})
             if ci % (4 if tier == "thorough" else 16) == 1:
                 pos = (ci + ti) % (len(cuts) + 1)
@@ -189,7 +189,7 @@ def strategy(tier):
 
 
 def n_random(tier):
-    return 1200 if tier == "quick" else 100000
+    return 800 if tier == "quick" else 100000
 
 
 def expand(case):
